@@ -57,3 +57,13 @@ theorem governance_execute_in_surface :
     ∃ e ∈ Generated.governanceSurface, e.kind = "endpoint" ∧ e.name = "execute" ∧ e.payable = "" := by decide
 
 end Axelar.Surface
+
+namespace Axelar.Surface
+/-- **Gas reserved for the callbacks** (C11, C12, C16: the failure callback restores the proposal and credits the
+    refund — it must not run out of gas; the debug VM does not meter gas, so this is tied statically): the constants
+    regenerated from the source are at least the reservations the deployed contract makes. -/
+theorem governance_callback_gas_reserved :
+    Generated.GOV_EXECUTE_PROPOSAL_CALLBACK_GAS ≥ 10000000 ∧
+    Generated.GOV_EXECUTE_PROPOSAL_CALLBACK_GAS_PER_PAYMENT ≥ 2000000 ∧
+    Generated.GOV_KEEP_EXTRA_GAS ≥ 15000000 := by decide
+end Axelar.Surface
